@@ -101,6 +101,7 @@ func sameEndpoint(ra net.Addr, sa vsys.Sockaddr) bool {
 }
 
 var lastCounters map[string]int
+var lastChunkOver int
 var lastOutcome string
 
 type connState struct {
@@ -152,7 +153,16 @@ func streamBody(c cfg) func() {
 			}
 			s.inCB = true
 			s.got = append(s.got, data...)
+			first := string(data)
+			if len(data) > c.b && !c.async {
+				lastChunkOver++
+			}
 			vsched.Point()
+			// a handler that looks at its argument a little later must still find the same bytes:
+			// nobody else may be using the buffer while the callback runs
+			if string(data) != first {
+				fails = append(fails, fmt.Sprintf("inbound-changed-during-callback|the %d bytes handed to the data callback changed while the callback was running (%v -> %v)", len(first), []byte(first), data))
+			}
 			s.inCB = false
 		})
 		if err := g.Start(); err != nil {
@@ -192,6 +202,10 @@ func streamBody(c cfg) func() {
 		vsched.WaitIdle()
 		kst := vsys.GetStats()
 		lastCounters = map[string]int{"reads": kst.Reads, "read_eagain": kst.ReadEagain, "eintr": kst.Eintrs}
+		if lastChunkOver > 0 {
+			lastCounters["chunks_larger_than_read_buffer_not_judged"] = lastChunkOver
+			lastChunkOver = 0
+		}
 		var outc []string
 		for i, x := range cps {
 			s := st(x.conn)
@@ -427,6 +441,10 @@ func build(tier string) []*vkit.Scenario {
 				// two connections on two pollers
 				if b == 2 && (mr == 1 || thorough) {
 					c := cfg{mode: e.mode, async: e.async, exec: e.exec, npoller: 2, b: b, maxReads: mr, trans: "tcp", bursts: []int{b + 1, 1}, conns: 2, p: 2, d: 0}
+					add(c, streamBody(c))
+					// a first burst that makes each poller use its buffer once, then one that is larger
+					// than the buffer on both connections at the same time
+					c = cfg{mode: e.mode, async: e.async, exec: e.exec, npoller: 2, b: b, maxReads: mr, trans: "tcp", bursts: []int{1, 2 * b}, conns: 2, p: 2, d: 0}
 					add(c, streamBody(c))
 				}
 				// UDP: two remotes x <= 2 datagrams
